@@ -48,7 +48,7 @@ func zzStubPrfForVersion(version uint16, suite *cipherSuite) func(result, secret
 //
 //verif:property C06
 //verif:expect-reach end
-//verif:bound master secret 48 symbolic bytes, both randoms 32 symbolic bytes; suite shapes (keyLen 16, macLen 32, ivLen 16, CBC+MAC) and (keyLen 16, ivLen 4, AEAD); the PRF an arbitrary function of (secret, label, seed)
+//verif:bound the GMSSL and the TLS-mode pair of state machines; master secret 48 symbolic bytes, both randoms 32 symbolic bytes; suite shapes (keyLen 16, macLen 32, ivLen 16, CBC+MAC) and (keyLen 16, ivLen 4, AEAD); the PRF an arbitrary function of (secret, label, seed)
 //verif:outside completing real handshakes, session views, application data streams, interoperability with other stacks (the bulk of C06); the PRF itself
 //verif:stub-symbolic github.com/tjfoc/gmsm/gmtls.prfForVersion zzStubPrfForVersion
 func zzH_c06_keys_agree() {
@@ -68,12 +68,23 @@ func zzH_c06_keys_agree() {
 	}
 	cc := &Conn{vers: VersionGMSSL, isClient: true}
 	sc := &Conn{vers: VersionGMSSL}
-	chs := &clientHandshakeStateGM{c: cc, suite: suite, masterSecret: ms,
-		hello: &clientHelloMsg{random: cr}, serverHello: &serverHelloMsg{random: sr}}
-	shs := &serverHandshakeStateGM{c: sc, suite: suite, masterSecret: ms,
-		clientHello: &clientHelloMsg{random: cr}, hello: &serverHelloMsg{random: sr}}
-	vAssert("client-establish-ok", chs.establishKeys() == nil)
-	vAssert("server-establish-ok", shs.establishKeys() == nil)
+	if vChoice("tlsMode", 2) == 1 {
+		// the TLS-mode state machines (handshake_client.go / handshake_server.go)
+		cc.vers, sc.vers = VersionTLS12, VersionTLS12
+		chs := &clientHandshakeState{c: cc, suite: suite, masterSecret: ms,
+			hello: &clientHelloMsg{random: cr}, serverHello: &serverHelloMsg{random: sr}}
+		shs := &serverHandshakeState{c: sc, suite: suite, masterSecret: ms,
+			clientHello: &clientHelloMsg{random: cr}, hello: &serverHelloMsg{random: sr}}
+		vAssert("client-establish-ok", chs.establishKeys() == nil)
+		vAssert("server-establish-ok", shs.establishKeys() == nil)
+	} else {
+		chs := &clientHandshakeStateGM{c: cc, suite: suite, masterSecret: ms,
+			hello: &clientHelloMsg{random: cr}, serverHello: &serverHelloMsg{random: sr}}
+		shs := &serverHandshakeStateGM{c: sc, suite: suite, masterSecret: ms,
+			clientHello: &clientHelloMsg{random: cr}, hello: &serverHelloMsg{random: sr}}
+		vAssert("client-establish-ok", chs.establishKeys() == nil)
+		vAssert("server-establish-ok", shs.establishKeys() == nil)
+	}
 	// the independent expectation: the key block in RFC order
 	n := 2*suite.macLen + 2*suite.keyLen + 2*suite.ivLen
 	kb := make([]byte, n)
